@@ -222,6 +222,31 @@ def adesignOfJson (j : Json) : Except String ADesign := do
          topLi := ← Spydr.Proto.getNat j "tli", topDi := ← Spydr.Proto.getNat j "tdi",
          topCellSp := ← strOf (← j.getObjVal? "tcsp"), topLibSp := ← strOf (← j.getObjVal? "tlsp") }
 
+/-! the view of C05 as JSON (the shape of the harness's view05, without the properties of ports / cells / nets) -/
+
+def optStrJson : Option Str → Json
+  | none => Json.null
+  | some s => jstr s
+
+def pairJson (n i : Option Str) : Json := Json.arr #[optStrJson n, optStrJson i]
+
+def v05Json (v : V05) : Json := Json.mkObj [
+  ("name", pairJson v.name v.ident),
+  ("libs", Json.arr (v.libs.map fun l => Json.mkObj [
+    ("name", pairJson l.name l.ident),
+    ("cells", Json.arr (l.cells.map fun c => Json.mkObj [
+      ("name", pairJson c.name c.ident), ("view", optStrJson c.view),
+      ("ports", Json.arr (c.ports.map fun p => Json.mkObj [
+        ("name", pairJson p.name p.ident), ("dir", dirJson p.dir), ("width", jnat p.width), ("array", Json.bool p.array)]).toArray),
+      ("insts", Json.arr (c.insts.map fun i => Json.mkObj [
+        ("name", pairJson i.name i.ident), ("ref", refJson i.ref), ("props", Json.arr (i.props.map valToJson).toArray)]).toArray),
+      ("cables", Json.arr (c.cables.map fun cb => Json.mkObj [
+        ("name", pairJson cb.name cb.ident), ("array", Json.bool cb.array), ("lower", jnat cb.lower),
+        ("wires", Json.arr (cb.wires.map fun w => Json.arr (w.map pinJson).toArray).toArray)]).toArray)]).toArray)]).toArray),
+  ("top", match v.top with
+    | none => Json.null
+    | some t => Json.mkObj [("name", pairJson t.name t.ident), ("ref", refJson t.ref)])]
+
 def clauseJson : Option String → Json
   | none => Json.mkObj [("in", Json.bool true)]
   | some c => Json.mkObj [("in", Json.bool false), ("clause", Json.str c)]
@@ -261,6 +286,16 @@ def handle (st : Unit) (j : Json) : Except String (Unit × Json) := do
       -- decidable hypothesis of C05.edif_reader_spec / _kwcase (wfClause_sound): first failing clause
       let d ← adesignOfJson (← j.getObjVal? "d")
       pure (st, clauseJson (wfClause d))
+  | "denote05" =>
+      -- the spec side of C05.edif_reader_spec on one abstract design: the text of Lean's own writer, what the design
+      -- denotes, and the view of the model reader's result on that text (the theorem says: equal when `wf`)
+      let d ← adesignOfJson (← j.getObjVal? "d")
+      let text := renderText d
+      let model := match readEdif text with
+        | .ok n => v05Json (view05 n)
+        | .error e => errJson e
+      pure (st, Json.mkObj [("wf", Json.bool d.wf), ("text", Json.str (String.ofList text)), ("denote", v05Json (denote d)),
+                            ("model", model)])
   | _ => throw s!"unknown fn {fn}"
 
 end Spydr.Edif.Drv
